@@ -16,11 +16,14 @@ open Driver AM AM.AList AM.Silence
 def dropS (s : String) (n : Nat) : String := String.ofList (s.toList.drop n)
 def dropEndS (s : String) (n : Nat) : String := String.ofList (s.toList.take (s.length - n))
 
+/-- `.` is Go's default dot (no `(?s)` flag): any character but a line feed -/
+def noLF (s : String) : Bool := !s.contains '\n'
+
 def altMatches (alt v : String) : Bool :=
-  if alt = ".*" then true
-  else if alt = ".+" then !v.isEmpty
-  else if alt.endsWith ".*" then v.startsWith (dropEndS alt 2)
-  else if alt.startsWith ".*" then v.endsWith (dropS alt 2)
+  if alt = ".*" then noLF v
+  else if alt = ".+" then !v.isEmpty && noLF v
+  else if alt.endsWith ".*" then v.startsWith (dropEndS alt 2) && noLF (dropS v (alt.length - 2))
+  else if alt.startsWith ".*" then v.endsWith (dropS alt 2) && noLF (dropEndS v (alt.length - 2))
   else v = alt
 
 def reFrag (pat v : String) : Bool := (pat.splitOn "|").any (altMatches · v)
